@@ -597,6 +597,49 @@ def _walk(node):
     return ast.walk(node)
 
 
+def midnight_arg(e: ast.AST) -> Optional[ast.AST]:
+    """facts.is_midnight_of, plus the keyword spelling `datetime(year=d.year, month=d.month, day=d.day[, hour=0, ..])`
+    (any mix of positional and keyword arguments)  ->  d"""
+    d = facts.is_midnight_of(e)
+    if d is not None:
+        return d
+    if isinstance(e, ast.Call) and isinstance(e.func, ast.Name) and e.func.id == 'datetime' and not any(isinstance(a, ast.Starred) for a in e.args):
+        order = ['year', 'month', 'day', 'hour', 'minute', 'second', 'microsecond']
+        got = dict(zip(order, e.args))
+        for k in e.keywords:
+            if k.arg is None or k.arg in got or k.arg not in order:
+                return None
+            got[k.arg] = k.value
+        if len(e.args) > len(order) or not {'year', 'month', 'day'} <= set(got):
+            return None
+        base = None
+        for part in ('year', 'month', 'day'):
+            v = got[part]
+            if not (isinstance(v, ast.Attribute) and v.attr == part):
+                return None
+            if base is None:
+                base = v.value
+            elif not same(base, v.value):
+                return None
+        if all(isinstance(got[p], ast.Constant) and got[p].value == 0 for p in order[3:] if p in got):
+            return base
+    return None
+
+
+def wrong_day_key(e: ast.AST, name: str) -> bool:
+    """e is recognisably NOT midnight(name): the date itself, `name.date()`, or a `name.replace(..)` / `datetime(name.year, ..)`
+    that leaves a time field standing"""
+    if isinstance(e, ast.Name) and e.id == name:
+        return True
+    if isinstance(e, ast.Call) and isinstance(e.func, ast.Attribute) and isinstance(e.func.value, ast.Name) and e.func.value.id == name \
+            and e.func.attr in ('replace', 'date', 'timestamp', 'isoformat', 'toordinal'):
+        return True
+    if isinstance(e, ast.Call) and isinstance(e.func, ast.Name) and e.func.id == 'datetime' and \
+            any(isinstance(n, ast.Attribute) and isinstance(n.value, ast.Name) and n.value.id == name for n in ast.walk(e)):
+        return True
+    return False
+
+
 # ---------------------------------------------------------------------------------------------------- bounded evaluation
 class SimUnknown(Exception):
     def __init__(self, node, why=''):
@@ -958,7 +1001,7 @@ class SearchSim:
 
     def call(self, c, env, f, depth):
         fn = c.func
-        md = facts.is_midnight_of(c)
+        md = midnight_arg(c)
         if md is not None:
             # datetime(d.year, d.month, d.day) / d.replace(hour=0, ..) / datetime.combine(d.date(), time.min): the date cut
             # to the start of its day.  The search starts at a time of day (TOD) after midnight.
